@@ -5,7 +5,7 @@ from . import base
 from . import c11, c13, c03
 
 TRUSTED_BASE = base.TRUSTED_BASE
-ASSUMPTIONS = base.ASSUMPTIONS + ['quantifier: integers (codes or integer values) and raw-mode strings, i.e. scalars; arrays of wide codes are judged by C11',
+ASSUMPTIONS = base.ASSUMPTIONS + ['quantifier: integers (codes or integer values) and raw-mode strings, as scalars and as lists/tuples of Python integers; ndarray carriers of wide codes are judged by C11',
                                   'bin()/hex() and bitwise operators at these widths reuse the ops of C11 and C13 (same model functions, unbounded in n_word)']
 RULE = ('X18 lines: n_word in {64,65,66,72,96,127,128,129,200,256} x n_frac in {0,1,n/2,n-1,n} x signedness x overflow; integers at and just beyond both bounds, multiples of the modulus +- small, random up to 4x the word; '
         'routes raw constructor / raw set_val / integer value / bin string raw / hex string raw; EX lines: extended_prec after construction, resize and reset for word lengths around 64; plus SB/SH/SP (C11 ops) and BW (C13 ops) at these widths. '
@@ -22,9 +22,11 @@ def exec_X18(t):
     s, n, f = t[0] == 's', int(t[1]), int(t[2])
     o, route = t[3], t[4]
     vs = [int(v) for v in parse_list(t[5])]
-    v = vs[0]
+    v = vs[0] if len(vs) == 1 else (list(vs) if len(vs) % 2 else tuple(vs))      # several integers travel as a list / tuple
     try:
-        if route == 'rawctor':
+        if route == 'rawset' and len(vs) > 1:
+            x = Fxp(np.zeros(len(vs), dtype=int), s, n, f, overflow=o); x.set_val(v, raw=True)
+        elif route == 'rawctor':
             x = Fxp(v, s, n, f, raw=True, overflow=o)
         elif route == 'rawset':
             x = Fxp(None, s, n, f, overflow=o); x.set_val(v, raw=True)
@@ -85,6 +87,14 @@ def generate(tier, rng):
                     for _ in range(2 * reps):
                         c = rng.choice([lo, hi, 0, -1 if s else hi, rng.randint(lo, hi)])
                         yield 'X18 %s %s %s %s' % (fm(s, n, f), o, rng.choice(['binraw', 'hexraw']), L([c]))
+                    # lists / tuples of Python integers: windows in which NumPy would pick a 64-bit or float carrier by itself
+                    for _ in range(3 * reps):
+                        win = lambda: rng.choice([rng.randint(1 << 63, (1 << 64) - 1), -rng.randint(1, 1 << 63), rng.randint(0, (1 << 63) - 1),
+                                                  (1 << 63) + 1, -1, rng.choice(vals), rng.randint(lo, hi)])
+                        vv = [win() for _ in range(rng.choice([2, 3]))]
+                        if f > 0 and max(abs(x) for x in vv) >= (1 << (3 * n)):
+                            continue
+                        yield 'X18 %s %s %s %s' % (fm(s, n, f), o, rng.choice(['rawctor', 'rawset', 'intval']), L(vv))
                 # rendering / parsing / bitwise at this width (ops of C11 and C13)
                 for _ in range(2 * reps):
                     c = rng.choice([lo, hi, 0, 1, lo + 1, hi - 1, rng.randint(lo, hi)])
